@@ -352,6 +352,12 @@ package gts
 
 // covR(r, x): residue x is covered by region r (any strand, any nesting).
 //@ spec func covR(r Region, x int) bool uninterpreted
+// someCovered(r): a residue covered by r, when there is one (Skolem witness for preconditions).
+//@ spec func someCovered(r Region) int uninterpreted
+// hasSegR(r): r contains at least one segment.
+//@ spec func hasSegR(r Region) bool uninterpreted
+// withinR(r, lo, hi): every (normalised) segment of r lies inside [lo, hi].
+//@ spec func withinR(r Region, lo int, hi int) bool uninterpreted
 
 //@ func flattenRegion(arg Region) (ss []Segment)
 //@   prop C09
@@ -359,18 +365,86 @@ package gts
 //@   ensures fresh(ss)
 //@   ensures forall k in 0..len(ss): ss[k][0] <= ss[k][1]
 //@   ensures sound: forall k in 0..len(ss): forall x: inSeg(ss[k][0], ss[k][1], x) ==> covR(arg, x)
+//@   ghost Wf(x int) int
+//@   ensures complete: forall x: covR(arg, x) ==> 0 <= Wf(x) && Wf(x) < len(ss) && inSeg(ss[Wf(x)][0], ss[Wf(x)][1], x)
+//@   ensures bounds: forall lo: forall hi: withinR(arg, lo, hi) ==> (forall k in 0..len(ss): lo <= ss[k][0] && ss[k][1] <= hi)
+//@   ensures hasSegR(arg) ==> len(ss) >= 1
 //@   assigns nothing
 
 //@ func Minimize(arg Region) (ss []Segment)
 //@   prop C09 C15
 //@   ensures fresh(ss)
 //@   ensures forward: forall k in 0..len(ss): ss[k][0] <= ss[k][1]
-//@   ensures separated: forall k in 0..len(ss)-1: ss[k][1] < ss[k+1][0]
+//@   ensures separated: forall a in 0..len(ss): forall b in a+1..len(ss): ss[a][1] < ss[b][0]
 //@   ensures sound: forall k in 0..len(ss): forall x: inSeg(ss[k][0], ss[k][1], x) ==> covR(arg, x)
 //@   assigns nothing
 //@   loop 1: invariant fresh(ss) && 0 <= i && (i < len(ss) || len(ss) == 0)
 //@   loop 1: invariant forall k in 0..len(ss): ss[k][0] <= ss[k][1]
-//@   loop 1: invariant forall k in 0..len(ss)-1: ss[k][0] <= ss[k+1][0]
-//@   loop 1: invariant forall k in 0..i: ss[k][1] < ss[k+1][0]
+//@   loop 1: invariant forall a in 0..len(ss): forall b in a+1..len(ss): ss[a][0] <= ss[b][0]
+//@   loop 1: invariant forall a in 0..i+1: forall b in a+1..i+1: ss[a][1] < ss[b][0]
 //@   loop 1: invariant forall k in 0..len(ss): forall x: inSeg(ss[k][0], ss[k][1], x) ==> covR(arg, x)
 //@   loop 1: decreases 2*len(ss) - i
+//@   ensures bounds: forall lo: forall hi: withinR(arg, lo, hi) ==> (forall k in 0..len(ss): lo <= ss[k][0] && ss[k][1] <= hi)
+//@   loop 1: invariant forall lo: forall hi: withinR(arg, lo, hi) ==> (forall k in 0..len(ss): lo <= ss[k][0] && ss[k][1] <= hi)
+//@   ensures hasSegR(arg) ==> len(ss) >= 1
+//@   loop 1: invariant hasSegR(arg) ==> len(ss) >= 1
+//@   ghost W(x int) int
+//@   ensures complete: forall x: covR(arg, x) ==> 0 <= W(x) && W(x) < len(ss) && inSeg(ss[W(x)][0], ss[W(x)][1], x)
+//@   loop 1: ghost_init W(x) := sortInv(flattenRegion_Wf(x))
+//@   loop 1: invariant forall x: covR(arg, x) ==> 0 <= W(x) && W(x) < len(ss) && inSeg(ss[W(x)][0], ss[W(x)][1], x)
+//@   loop 1: ghost_update W(x) := ite(len(ss) < iter_old(len(ss)) && W(x) > i, W(x) - 1, W(x))
+
+//@ func invertSegments(ss []Segment, n int) (rr []Segment)
+//@   prop C09
+//@   requires 0 <= n
+//@   requires forall k in 0..len(ss): 0 <= ss[k][0] && ss[k][0] <= ss[k][1] && ss[k][1] <= n
+//@   requires forall a in 0..len(ss): forall b in a+1..len(ss): ss[a][1] < ss[b][0]
+//@   ghost G(x int) int
+//@   ghost_final G(x) := ite(len(rr) > 0 && inSeg(rr[len(rr)-1][0], rr[len(rr)-1][1], x), len(rr)-1, G(x))
+//@   ensures fresh(rr)
+//@   ensures nonempty: forall k in 0..len(rr): 0 <= rr[k][0] && rr[k][0] < rr[k][1] && rr[k][1] <= n
+//@   ensures increasing: forall k in 0..len(rr)-1: rr[k][1] <= rr[k+1][0]
+//@   ensures disjoint: forall k in 0..len(rr): forall j in 0..len(ss): rr[k][1] <= ss[j][0] || ss[j][1] <= rr[k][0]
+//@   ensures cover: forall x: 0 <= x && x < n && (forall j in 0..len(ss): !inSeg(ss[j][0], ss[j][1], x)) ==>
+//@      0 <= G(x) && G(x) < len(rr) && inSeg(rr[G(x)][0], rr[G(x)][1], x)
+//@   assigns nothing
+//@   loop 1: invariant fresh(rr) && 0 <= start && start <= n && start == ite(idx1 == 0, 0, ss[idx1-1][1])
+//@   loop 1: invariant forall k in 0..len(rr): 0 <= rr[k][0] && rr[k][0] < rr[k][1] && rr[k][1] <= start
+//@   loop 1: invariant forall k in 0..len(rr)-1: rr[k][1] <= rr[k+1][0]
+//@   loop 1: invariant forall k in 0..len(rr): forall j in 0..len(ss): rr[k][1] <= ss[j][0] || ss[j][1] <= rr[k][0]
+//@   loop 1: invariant forall x: 0 <= x && x < start && (forall j in 0..idx1: !inSeg(ss[j][0], ss[j][1], x)) ==>
+//@      0 <= G(x) && G(x) < len(rr) && inSeg(rr[G(x)][0], rr[G(x)][1], x)
+//@   loop 1: ghost_update G(x) := ite(len(rr) > iter_old(len(rr)) && iter_old(start) <= x && x < start, iter_old(len(rr)), G(x))
+//@   loop 1: decreases len(ss) - idx1
+
+// covSP(v, x): x lies in v, where v is a Segment or a Regions value of exactly two Segments
+// (the only shapes InvertLinear / InvertCircular return).
+//@ spec macro covSP(v Region, x int) bool =
+//@   (is(v, Segment) && inSeg(v.(Segment)[0], v.(Segment)[1], x)) ||
+//@   (is(v, Regions) && len(v.(Regions)) == 2 && is(v.(Regions)[0], Segment) && is(v.(Regions)[1], Segment) &&
+//@     (inSeg(v.(Regions)[0].(Segment)[0], v.(Regions)[0].(Segment)[1], x) || inSeg(v.(Regions)[1].(Segment)[0], v.(Regions)[1].(Segment)[1], x)))
+
+//@ func InvertLinear(r Region, n int) (rr []Region)
+//@   prop C09 C15
+//@   requires 0 <= n && withinR(r, 0, n)
+//@   ghost GL(x int) int
+//@   ghost_final GL(x) := invertSegments_G(x)
+//@   ensures fresh(rr)
+//@   ensures shape: forall k in 0..len(rr): is(rr[k], Segment) && 0 <= rr[k].(Segment)[0] && rr[k].(Segment)[0] < rr[k].(Segment)[1] && rr[k].(Segment)[1] <= n
+//@   ensures increasing: forall k in 0..len(rr)-1: rr[k].(Segment)[1] <= rr[k+1].(Segment)[0]
+//@   ensures disjoint: forall k in 0..len(rr): forall x: inSeg(rr[k].(Segment)[0], rr[k].(Segment)[1], x) ==> !covR(r, x)
+//@   ensures cover: forall x: 0 <= x && x < n && !covR(r, x) ==> 0 <= GL(x) && GL(x) < len(rr) && inSeg(rr[GL(x)].(Segment)[0], rr[GL(x)].(Segment)[1], x)
+//@   assigns nothing
+//@   loop 1: invariant fresh(rr) && len(rr) == len(ss)
+//@   loop 1: invariant forall k in 0..i: is(rr[k], Segment) && rr[k].(Segment) == ss[k]
+//@   loop 1: decreases len(ss) - i
+
+//@ func InvertCircular(r Region, n int) (out []Region)
+//@   prop C09
+//@   requires 0 < n && withinR(r, 0, n) && hasSegR(r)
+//@   requires covR(r, someCovered(r))
+//@   ghost GC(x int) int
+//@   ghost_final GC(x) := ite(len(out) < len(rr) && InvertLinear_GL(x) == len(rr)-1, 0, InvertLinear_GL(x))
+//@   ensures disjoint: forall k in 0..len(out): forall x: covSP(out[k], x) ==> 0 <= x && x < n && !covR(r, x)
+//@   ensures cover: forall x: 0 <= x && x < n && !covR(r, x) ==> 0 <= GC(x) && GC(x) < len(out) && covSP(out[GC(x)], x)
+//@   ensures merged: len(out) > 0 && is(out[0], Regions) ==> !covR(r, 0) && !covR(r, n-1)
